@@ -243,10 +243,10 @@ Lemma step_call_mono E E' : ele E E' -> forall rho name args v ps k k', kle k k'
   mle (step_call bs E rho name args v ps k) (step_call bs E' rho name args v ps k').
 Proof.
   intros HE rho name args v ps k k' Hk. unfold step_call. generalize range_budget; intro rb.
-  apply mle_bind; [apply mle_refl|intros _].
-  do 4 mono_step HE.
-  1-3: solve [mono HE].
-  destruct args as [|a [|b [|c r]]].
+  destruct (is_var_name name && Nat.eqb (List.length args) 0); [solve [mono HE]|].
+  destruct (lookup_fun rho name (List.length args)) as [[fd defenv|body cenv]|]; [solve [mono HE]|solve [mono HE]|].
+  destruct (lookup_builtin bs name (List.length args)); [solve [mono HE]|].
+  apply mle_guard. destruct args as [|a [|b [|c r]]].
   all: solve [mono HE].
 Qed.
 
@@ -318,7 +318,7 @@ Definition not_redefined (rho : env) (name : string) (arity : nat) : Prop :=
   lookup_fun rho (codes name) arity = None /\ lookup_builtin bs (codes name) arity = None.
 
 Lemma empty_law n rho v ps k : not_redefined rho "empty" 0 ->
-  eval_q bs (S (S (S n))) rho q_empty v ps k = (tick ;; ret tt).
+  eval_q bs (S (S (S n))) rho q_empty v ps k = ret tt.
 Proof.
   intros [H1 H2]. unfold eval_q, q_empty, q_call, q_term.
   cbn [evals_n step ev_q step_eval_q push_defs fold_left ev_t step_eval_t rev app ev_call].
@@ -329,19 +329,17 @@ Qed.
 
 Lemma empty_unit_left n rho r v ps k : not_redefined rho "empty" 0 ->
   meq (eval_q bs (S (S (S (S n)))) rho (q_bin q_empty OpComma r) v ps k)
-      (tick ;; eval_q bs (S (S (S n))) rho r v ps k).
+      (eval_q bs (S (S (S n))) rho r v ps k).
 Proof.
-  intros H s. rewrite comma_law, (empty_law n rho v ps k H). unfold bind, tick, ret.
-  destruct (steps s); reflexivity.
+  intros H s. rewrite comma_law, (empty_law n rho v ps k H). reflexivity.
 Qed.
 
 Lemma empty_unit_right n rho l v ps k : not_redefined rho "empty" 0 ->
   meq (eval_q bs (S (S (S (S n)))) rho (q_bin l OpComma q_empty) v ps k)
-      (eval_q bs (S (S (S n))) rho l v ps k ;; tick).
+      (eval_q bs (S (S (S n))) rho l v ps k).
 Proof.
-  intros H s. rewrite comma_law, (empty_law n rho v ps k H). unfold bind, tick, ret.
-  destruct (eval_q bs (S (S (S n))) rho l v ps k s) as [[[]|e] s1]; [|reflexivity].
-  destruct (steps s1); reflexivity.
+  intros H s. rewrite comma_law, (empty_law n rho v ps k H). unfold bind, ret.
+  destruct (eval_q bs (S (S (S n))) rho l v ps k s) as [[[]|e] s1]; reflexivity.
 Qed.
 
 (* try never intercepts what its CONSUMER raises: a try around a computation whose errors all come
